@@ -129,12 +129,32 @@ pub fn raw_name_to_ts_field(value: String) -> String {
         .next()
         .map_or(true, |first| !first.is_numeric());
 
-    let valid = valid_chars && does_not_start_with_digit;
+    let valid = valid_chars && does_not_start_with_digit && !value.is_empty();
 
     if valid {
         value
     } else {
-        format!(r#""{value}""#)
+        format!(r#""{}""#, escape_ts_string(&value))
+    }
+}
+
+/// Escapes `"`, `\` and line breaks, so that the string can be put between double quotes in
+/// TypeScript.
+pub fn escape_ts_string(value: &str) -> String {
+    value
+        .replace('\\', "\\\\")
+        .replace('"', "\\\"")
+        .replace('\n', "\\n")
+}
+
+/// An expression which, at run time, evaluates to the string `expr` evaluates to, escaped for
+/// use between double quotes in TypeScript (see [`escape_ts_string`]).
+pub fn escaped_ts_string(expr: &Expr) -> TokenStream {
+    quote! {
+        ::std::string::ToString::to_string(&(#expr))
+            .replace('\\', "\\\\")
+            .replace('"', "\\\"")
+            .replace('\n', "\\n")
     }
 }
 
